@@ -36,15 +36,31 @@ Proof. reflexivity. Qed.
 Lemma join_sep_cons sep a b rest : join_sep sep (a :: b :: rest) = a ++ sep ++ join_sep sep (b :: rest).
 Proof. reflexivity. Qed.
 
+(* kw_found: on strings that are valid UTF-8 it IS the substring rule; a keyword holding an invalid byte is
+   never found; in general the keyword is searched in the rune reading of the text *)
+Lemma runes_valid t : valid_text t = true -> runes t = t.
+Proof.
+  unfold valid_text, runes. induction t as [|c t IH]; cbn [forallb map]; [reflexivity|].
+  intros H. apply andb_prop in H. destruct H as [Hc Ht]. rewrite (IH Ht). unfold rune_of. rewrite Hc. reflexivity.
+Qed.
+Theorem kw_found_valid k t : valid_text k = true -> valid_text t = true -> kw_found k t = substring k t.
+Proof. intros Hk Ht. unfold kw_found. rewrite Hk, (runes_valid t Ht). reflexivity. Qed.
+Theorem kw_found_invalid k t : valid_text k = false -> kw_found k t = false.
+Proof. intros Hk. unfold kw_found. rewrite Hk. reflexivity. Qed.
+Theorem kw_found_spec k t : kw_found k t = true <-> valid_text k = true /\ exists pre post, runes t = pre ++ k ++ post.
+Proof. unfold kw_found. rewrite andb_true_iff, substring_spec. reflexivity. Qed.
+Lemma kw_found_nil_r k : k <> [] -> kw_found k [] = false.
+Proof. intros H. unfold kw_found. cbn [runes map]. destruct k; [contradiction|]. cbn [substring is_prefix]. apply andb_false_r. Qed.
+
 (* which posting lists the pattern holder selects *)
 Theorem ac_get_entries_spec fd fid vals v t : vals <> [] -> ac_query_text [32%N] v = POk t -> t <> [] ->
   exists ls, get_entries fd fid (HAc vals) v = POk ls /\
-    forall l, In l ls <-> exists k, In (k, l) vals /\ substring k t = true /\ l <> [].
+    forall l, In l ls <-> exists k, In (k, l) vals /\ kw_found k t = true /\ l <> [].
 Proof.
   intros Hv Ht Hne. cbn [get_entries]. destruct vals as [|kv0 vals']; [contradiction|].
   rewrite Ht. cbn [pbind]. destruct t as [|c t']; [contradiction|].
   eexists. split; [reflexivity|]. intros l. unfold nonempty_lists. rewrite filter_In, in_flat_map. split.
-  - intros ((kv & Hin & Hl) & Hnn). destruct (substring (fst kv) (c :: t')) eqn:E; [|contradiction].
+  - intros ((kv & Hin & Hl) & Hnn). destruct (kw_found (fst kv) (c :: t')) eqn:E; [|contradiction].
     destruct Hl as [<-|[]]. exists (fst kv). destruct kv; cbn in *. repeat split; auto. destruct l; [discriminate|discriminate].
   - intros (k & Hin & Hs & Hnn). split.
     + exists (k, l). split; auto. cbn [fst snd]. rewrite Hs. left; reflexivity.
